@@ -770,7 +770,20 @@ class FunctionAnalysis:
             if n[1] > o[1]:
                 hi = min([t for t in self.thresholds if t >= n[1]] or [INF])
             c[k] = (lo, hi)
-        f = {k: max(v, new.facts[k]) for k, v in old.facts.items() if k in new.facts and new.facts[k] <= v}
+        # a fact whose bound grew is not dropped at once: it may take one or two rounds until all back edges of a loop with several
+        # latches (`continue`) have contributed (x - y <= 0 from the first latch, <= 1 from the second, then stable).  Each fact may be
+        # raised twice per function; after that it is dropped, so the ascending chain stays finite.
+        f = {}
+        raises = self.__dict__.setdefault("_fact_raises", {})
+        for k, v in old.facts.items():
+            if k not in new.facts:
+                continue
+            nv = new.facts[k]
+            if nv <= v:
+                f[k] = v
+            elif raises.get(k, 0) < 2 and nv < INF:
+                raises[k] = raises.get(k, 0) + 1
+                f[k] = nv
         return State(c, f)
 
     # ---------------------------------------------------------------- fixpoint
